@@ -1021,6 +1021,11 @@ def c01r(ctx):
             if m in ("swap_remove", "swap", "sort", "sort_by", "sort_by_key", "sort_unstable", "sort_unstable_by", "sort_unstable_by_key", "reverse", "rotate_left", "rotate_right", "insert", "dedup", "retain_mut"):
                 ctx.fail(o, s_, "%s changes the recorded dependency order with Vec::%s: the order is stored and repaired front to back (a later dependency may only be "
                          "re-verified if the earlier ones are unchanged), so it must stay the order of registration" % (x.name, m))
+            # who may take entries OUT of the order: abort_callee (one cancelled call) and clear (before re-execution) only
+            if m in ("pop", "remove", "truncate", "drain", "retain", "clear", "split_off", "pop_if", "extract_if") and \
+                    not re.match(r"CalleeOrder::(abort_callee|clear)$", x.name):
+                ctx.fail(o, s_, "%s takes entries out of the recorded dependency order (Vec::%s): only abort_callee (a cancelled call) and clear (before re-execution) may; a callee "
+                         "that stays in the observation table but leaves the order gets no backward edge, so its changes never reach this node" % (x.name, m))
     o.sites = n_
     if n_ < 3:
         ctx.fail(o, "(program)", "expected >= 3 updates of CalleeOrder.order, found %d" % n_)
